@@ -90,6 +90,9 @@ struct CaseCfg {
     script_b: Script,
     clients_per_cap: usize,
     streams_per_client: usize,
+    /// OPEN rate limiter bursts per capability (forward caps, then reverse caps), one per side; None = unlimited.
+    /// The limiter is local (never announced): it must not influence how stream ids are partitioned.
+    bursts: Vec<(Option<usize>, Option<usize>)>,
 }
 
 fn gen_cfg(rng: &mut StdRng) -> CaseCfg {
@@ -111,7 +114,9 @@ fn gen_cfg(rng: &mut StdRng) -> CaseCfg {
         mux_a.read_frame_count = need + rng.gen_range(0..30);
         mux_b.read_frame_count = need + rng.gen_range(0..30);
     }
-    CaseCfg { caps, rev_caps, mux_a, mux_b, script_a: sc(rng), script_b: sc(rng), clients_per_cap: rng.gen_range(1..6), streams_per_client: rng.gen_range(1..5) }
+    let mut b = |rng: &mut StdRng| if rng.gen_bool(0.25) { Some(rng.gen_range(1..4usize)) } else { None };
+    let bursts = (0..caps.len() + rev_caps.len()).map(|_| (b(rng), b(rng))).collect();
+    CaseCfg { caps, rev_caps, mux_a, mux_b, script_a: sc(rng), script_b: sc(rng), clients_per_cap: rng.gen_range(1..6), streams_per_client: rng.gen_range(1..5), bursts }
 }
 
 #[allow(clippy::too_many_arguments)]
@@ -265,15 +270,19 @@ fn run_pair(rep: &mut Report, seed: u64, cfg: &CaseCfg, replay: vcommon::Value) 
         let fut = async {
             let mut qa = BTreeMap::new(); // A: connect side (clients)
             let mut qb = BTreeMap::new(); // B: accept side (servers)
+            let rate = |b: Option<usize>| match b {
+                Some(burst) => limiter::Rate { burst, refresh: zksync_concurrency::time::Duration::milliseconds(1) },
+                None => limiter::Rate::INF,
+            };
             for (c, (la, lb)) in cfg.caps.iter().enumerate() {
-                qa.insert(c as u64, StreamQueue::new(&root, *la, limiter::Rate::INF));
-                qb.insert(c as u64, StreamQueue::new(&root, *lb, limiter::Rate::INF));
+                qa.insert(c as u64, StreamQueue::new(&root, *la, rate(cfg.bursts[c].0)));
+                qb.insert(c as u64, StreamQueue::new(&root, *lb, rate(cfg.bursts[c].1)));
             }
             let mut qb_conn = BTreeMap::new(); // B: connect side of the reverse direction
             let mut qa_acc = BTreeMap::new(); // A: accept side of the reverse direction
             for (c, (la, lb)) in cfg.rev_caps.iter().enumerate() {
-                qb_conn.insert(100 + c as u64, StreamQueue::new(&root, *la, limiter::Rate::INF));
-                qa_acc.insert(100 + c as u64, StreamQueue::new(&root, *lb, limiter::Rate::INF));
+                qb_conn.insert(100 + c as u64, StreamQueue::new(&root, *la, rate(cfg.bursts[cfg.caps.len() + c].0)));
+                qa_acc.insert(100 + c as u64, StreamQueue::new(&root, *lb, rate(cfg.bursts[cfg.caps.len() + c].1)));
             }
             let (qa2, qb2, qb_conn2, qa_acc2) = (qa.clone(), qb.clone(), qb_conn.clone(), qa_acc.clone());
             let (qa, qb, qb_conn, qa_acc) = (&qa, &qb, &qb_conn, &qa_acc);
@@ -395,6 +404,7 @@ fn run_pair(rep: &mut Report, seed: u64, cfg: &CaseCfg, replay: vcommon::Value) 
             rep.count("capabilities_that_reached_their_stream_limit");
         }
         if all_caps[c].0 != all_caps[c].1 { rep.count("capabilities_with_mismatched_limits"); }
+        if cfg.bursts[c].0.is_some() || cfg.bursts[c].1.is_some() { rep.count("capabilities_with_a_finite_open_rate"); }
         if all_caps[c].0.min(all_caps[c].1) == 0 { rep.count("capabilities_with_zero_limit"); }
     }
     if rep.samples.len() < rep.max_samples {
